@@ -200,3 +200,121 @@ func init() {
 		o.def("catalogueApplyAlwaysNotifies", "Bool", lbool(ok), "every return of createDataset / deleteDataset / updatePartitionNodes that knows the notification id is directly preceded by a Notify of that id")
 	})
 }
+
+// returnsNotPrecededBy lists the return statements of fd (outside function literals) that are not
+// directly preceded, in their own statement list, by a statement whose normalised text starts with
+// one of the prefixes. allowFirst: a return that is the first statement of its list and reads exactly
+// like that is let through (`if err := decode(...); err != nil { return err }`).
+func returnsNotPrecededBy(fd *ast.FuncDecl, allowFirst string, prefixes ...string) int {
+	bad := 0
+	ast.Inspect(fd.Body, func(n ast.Node) bool {
+		if _, isLit := n.(*ast.FuncLit); isLit {
+			return false
+		}
+		var list []ast.Stmt
+		switch b := n.(type) {
+		case *ast.BlockStmt:
+			list = b.List
+		case *ast.CaseClause:
+			list = b.Body
+		case *ast.CommClause:
+			list = b.Body
+		default:
+			return true
+		}
+		for i, st := range list {
+			r, isRet := st.(*ast.ReturnStmt)
+			if !isRet {
+				continue
+			}
+			if i == 0 {
+				if allowFirst == "" || norm(r) != allowFirst {
+					bad++
+				}
+				continue
+			}
+			ok := false
+			for _, p := range prefixes {
+				if strings.HasPrefix(norm(list[i-1]), p) {
+					ok = true
+				}
+			}
+			if !ok {
+				bad++
+			}
+		}
+		return true
+	})
+	return bad
+}
+
+// C11: the batch fan-in. Every path through the per-partition worker sends exactly one result
+// before it returns (the collector counts one value per partition and the channel is closed once all
+// workers are done: a worker that returns silently is read as "no id of that partition failed").
+func init() {
+	extractors = append(extractors, func(o *out) {
+		f := parseFile("storage/dataset.go")
+		ok := false
+		if fd := funcDecl(f, "Dataset", "handlePartitionBatchRequest"); fd != nil {
+			b := norm(fd.Body)
+			nRet := strings.Count(b, "return")
+			nSend := strings.Count(b, "resultCh<-")
+			ok = strings.HasPrefix(b, "{deferwg.Done()") && returnsNotPrecededBy(fd, "", "resultCh<-") == 0 && nRet == nSend && nRet > 0 &&
+				strings.HasSuffix(b, "return}")
+		}
+		coll := false
+		if fd := funcDecl(f, "Dataset", "partitionsBatchRequest"); fd != nil {
+			b := norm(fd.Body)
+			coll = strings.Contains(b, "resultCh:=make(chanpartitionBatchResult)") && strings.Contains(b, "gofunc(){wg.Wait()close(resultCh)}()") &&
+				strings.Contains(b, "fori:=0;i<len(partitionItems);i++{select{caseresult:=<-resultCh:forid,err:=rangeresult{errors[id]=err}case<-ctx.Done():returnnil,ctx.Err()}}")
+		}
+		o.def("batchWorkerAlwaysAnswers", "Bool", lbool(ok && coll), "every path through handlePartitionBatchRequest sends exactly one result before it returns, and partitionsBatchRequest takes one value per partition from an unbuffered channel that is closed once all workers are done")
+	})
+}
+
+// C10: routing is positional in Dataset.partitions. Nothing but newDataset writes that table: no
+// element assignment, no append / re-slice assigned to it, and no sort over it or over a copy of its
+// slice header.
+func init() {
+	extractors = append(extractors, func(o *out) {
+		ok := true
+		for _, rel := range []string{"storage/dataset.go"} { // (the allocator's own `partitions` is a different table)
+			f := parseFile(rel)
+			if f == nil {
+				ok = false
+				continue
+			}
+			aliases := map[string]bool{}
+			ast.Inspect(f, func(n ast.Node) bool {
+				switch x := n.(type) {
+				case *ast.AssignStmt:
+					for i, l := range x.Lhs {
+						ls := norm(l)
+						// writes to the table or to one of its slots
+						if ls == "this.partitions" || ls == "d.partitions" || strings.HasPrefix(ls, "this.partitions[") {
+							if !(strings.HasSuffix(rel, "dataset.go") && (strings.HasPrefix(ls, "d.partitions") )) {
+								ok = false
+							}
+						}
+						// x := this.partitions shares the backing array
+						if i < len(x.Rhs) && norm(x.Rhs[i]) == "this.partitions" {
+							aliases[ls] = true
+						}
+					}
+				case *ast.CallExpr:
+					c := norm(x.Fun)
+					if strings.HasPrefix(c, "sort.") || c == "rand.Shuffle" {
+						for _, a := range x.Args {
+							as := norm(a)
+							if as == "this.partitions" || aliases[as] || strings.HasPrefix(as, "this.partitions[") {
+								ok = false
+							}
+						}
+					}
+				}
+				return true
+			})
+		}
+		o.def("datasetPartitionTableFixed", "Bool", lbool(ok), "Dataset.partitions (the positional routing table) is written by newDataset only: no other assignment to it or its slots, and no sort / shuffle over it or over a variable assigned from it")
+	})
+}
